@@ -240,17 +240,18 @@ func c19Spelling(t *sim.Tape, p string) string {
 }
 
 type c19 struct {
-	luts         []*lut
-	memberPanics int // panics raised by a panicOnceLoader so far
-	env          *sim.Env
-	t            *sim.Tape
-	nVer         int
-	hist         []string
-	nQ           int
-	scrat        []string
-	cwd          string // working directory to restore (set when a run changed it)
-	lastEdit     string
-	recentQ      []string
+	luts            []*lut
+	memberPanics    int // panics raised by a panicOnceLoader so far
+	memberOpenFails int // transient Open failures injected by an openFailOnceLoader so far
+	env             *sim.Env
+	t               *sim.Tape
+	nVer            int
+	hist            []string
+	nQ              int
+	scrat           []string
+	cwd             string // working directory to restore (set when a run changed it)
+	lastEdit        string
+	recentQ         []string
 }
 
 func (c *c19) newLut(kind string) *lut {
@@ -371,7 +372,7 @@ func (c *c19) edit(l *lut) {
 		}
 	case "os", "httpdir":
 		fp := filepath.Join(l.root, filepath.FromSlash(p))
-		choice := t.Choose(7)
+		choice := t.Choose(8)
 		// a path that is, or lies below, a symbolic link made earlier is left alone (writing through a
 		// link would create files the reference tree does not know)
 		for q := p; q != "/" && q != "."; q = Dir(q) {
@@ -380,6 +381,24 @@ func (c *c19) edit(l *lut) {
 			}
 		}
 		switch choice {
+		case 7:
+			// a symbolic link to a character device: it can be opened, and it is no regular file
+			if l.model.hasFile(p) || l.model.dirs[p] || l.links[p] {
+				return
+			}
+			parent := Dir(p)
+			if parent != "/" && !l.model.mkdirAll(parent) && !l.model.dirs[parent] {
+				return
+			}
+			os.MkdirAll(filepath.Dir(fp), 0o755)
+			if err := os.Symlink("/dev/null", fp); err == nil {
+				if l.links == nil {
+					l.links = map[string]bool{}
+				}
+				l.links[p] = true
+				c.hist = append(c.hist, "os.Symlink("+p+" -> /dev/null)")
+				c.env.Stat("probe:link_to_a_character_device_below_the_root", 1)
+			}
 		case 6:
 			// a unix socket: an entry that is neither a regular file nor a directory
 			if l.model.hasFile(p) || l.model.dirs[p] || l.links[p] || len(fp) > 90 {
@@ -560,6 +579,26 @@ func (l *panicOnceLoader) Open(p string) (io.ReadCloser, error) {
 	return l.inner.Open(p)
 }
 
+// openFailOnceLoader is a member of a multi stack whose at-th Open fails (a transient I/O error) while
+// Exists keeps saying true: the stack must report the failure, not answer from a later loader.
+type openFailOnceLoader struct {
+	inner jet.Loader
+	at    int
+	n     int
+	fired *int
+}
+
+func (l *openFailOnceLoader) Exists(p string) bool { return l.inner.Exists(p) }
+
+func (l *openFailOnceLoader) Open(p string) (io.ReadCloser, error) {
+	l.n++
+	if l.n == l.at {
+		*l.fired++
+		return nil, fmt.Errorf("INJ-loader: transient failure opening %q", p)
+	}
+	return l.inner.Open(p)
+}
+
 // openOnly: Open(p) some time after an Exists(p) call, with edits in between. Judged against the
 // reference at the time of the Open: if the path is a file now, Open must yield its current bytes.
 func (c *c19) openOnly(name string, ld jet.Loader, owners []*lut, p string, spelled string) {
@@ -577,6 +616,7 @@ func (c *c19) openOnly(name string, ld jet.Loader, owners []*lut, p string, spel
 	var data []byte
 	var err error
 	panicsBefore := c.memberPanics
+	openFailsBefore := c.memberOpenFails
 	pc := sim.Guard(func() {
 		var rc io.ReadCloser
 		rc, err = ld.Open(spelled)
@@ -592,6 +632,10 @@ func (c *c19) openOnly(name string, ld jet.Loader, owners []*lut, p string, spel
 	}
 	if pc != nil {
 		c.env.Violate("contract", name+":panic", "%s.Open(%q) panicked: %v", name, spelled, pc)
+		return
+	}
+	if err != nil && c.memberOpenFails > openFailsBefore {
+		c.env.Stat("fault:member_loader_open_fails_once", 1)
 		return
 	}
 	if err != nil {
@@ -661,6 +705,7 @@ func (c *c19) query(name string, ld jet.Loader, owners []*lut, p string, spelled
 	var rc io.ReadCloser
 	var err error
 	var data []byte
+	openFailsBefore := c.memberOpenFails
 	pc = sim.Guard(func() {
 		rc, err = ld.Open(spelled)
 		if err == nil {
@@ -680,6 +725,10 @@ func (c *c19) query(name string, ld jet.Loader, owners []*lut, p string, spelled
 	if err != nil {
 		if hit {
 			return // an injected fault may fail this call; wrong bytes are never acceptable
+		}
+		if c.memberOpenFails > openFailsBefore {
+			c.env.Stat("fault:member_loader_open_fails_once", 1)
+			return
 		}
 		c.env.Violate("contract", name+":open-fails", "%s.Exists(%q) is true but Open/Read failed: %v (expected content of the %s loader)\nhistory: %s", name, spelled, err, ownerKind, strings.Join(c.hist, " "))
 		return
@@ -811,6 +860,13 @@ func RunC19(env *sim.Env) {
 		}
 		// (spare capacity, as a list built by append usually has: what one stack appends must not
 		// show up in another stack built from the same list)
+		// one stack in five has a member whose k-th Open fails once
+		if t.Choose(5) == 4 {
+			v := luts[t.Choose(len(luts))]
+			v.loader = &openFailOnceLoader{inner: v.loader, at: t.Range(1, 4), fired: &c.memberOpenFails}
+			c.hist = append(c.hist, "member-"+v.kind+"-open-fails-once")
+			env.Stat("probe:multi_with_a_member_whose_open_fails_once", 1)
+		}
 		loaders := make([]jet.Loader, 0, n+3)
 		nInitial := t.Range(1, n)
 		for _, l := range luts[:nInitial] {
